@@ -103,7 +103,7 @@ HasOther(tp) == \E j \in DOMAIN tp.meas : tp.meas[j].t = "other"
 GroupRel(rel, tp, n) ==
    Bind(TLCEval(TapeWords(tp, n)), LAMBDA ws :
    CASE rel = "none" -> TRUE
-     [] rel = "single" -> Len(tp.meas) = 1
+     [] rel = "single" -> Len(tp.meas) <= 1
      [] rel = "wires" -> \A i, j \in DOMAIN ws : i < j => Disjoint(ws[i], ws[j])
      [] rel = "qwc" -> ~HasOther(tp) /\ \A i, j \in DOMAIN ws : i < j => PQWC(ws[i], ws[j])
      [] rel = "commuting" -> ~HasOther(tp) /\ \A i, j \in DOMAIN ws : i < j => PCommutes(ws[i], ws[j])
